@@ -32,12 +32,49 @@ var Check = &ev.Check{
 		"A state is a node of the choice tree, a transition one order choice; every execution is a real compile+generate into a scratch directory with an in-process ServiceGenerator capturing the plugin request. " +
 		"Oracle: identical success/failure, identical path->sha256 map of the output tree, identical plugin request after renumbering ids by (thrift path, service name). distinct_nontrivial = (program, options) pairs whose exploration had at least 2 executions.",
 	Run:     run,
+	Finish:  finish,
 	Workers: func(string) int { return 16 },
 	Budget:  func(t string) time.Duration { return map[string]time.Duration{"quick": 4 * time.Minute, "thorough": 25 * time.Minute}[t] },
 	Assumptions: []string{
 		"cross-process determinism is covered through the owned sources of nondeterminism (map order); there is no other clock/random/env input on the path (scanned by overlaygen: all map ranges rewritten, none left)",
 		"the range rewrite offers a generating set of orders, not all n!, for maps with more than 4 keys",
 	},
+}
+
+// finish compares the default-order outputs computed by the worker processes.
+func finish(s *ev.S, m *ev.Result) {
+	files, _ := filepath.Glob(filepath.Join(s.WorkDir, "baseline-*.json"))
+	sort.Strings(files)
+	var first map[string]string
+	firstName := ""
+	for _, f := range files {
+		var cur map[string]string
+		b, err := os.ReadFile(f)
+		if err != nil || json.Unmarshal(b, &cur) != nil {
+			continue
+		}
+		if first == nil {
+			first, firstName = cur, filepath.Base(f)
+			continue
+		}
+		for k, v := range cur {
+			if first[k] != v {
+				sig := "cross-process:" + strings.SplitN(k, "/", 2)[0]
+				if m.ViolCount == nil {
+					m.ViolCount = map[string]int64{}
+				}
+				m.ViolCount[sig]++
+				if m.ViolCount[sig] <= 2 {
+					m.Violations = append(m.Violations, ev.Violation{Sig: sig, Detail: fmt.Sprintf("%s: output hash %s in worker process %s but %s in %s (the workers visit the programs in rotated orders: state leaks between generations inside one process, or the output depends on the process)", k, first[k], firstName, v, filepath.Base(f)),
+						Replay: map[string]string{"case": k}})
+				}
+			}
+		}
+	}
+	if m.Counters == nil {
+		m.Counters = map[string]int64{}
+	}
+	m.Counters["worker_processes_compared"] = int64(len(files))
 }
 
 type program struct {
@@ -110,6 +147,32 @@ func programs() []program {
 		"l.thrift":    "include \"./shared.thrift\"\ntypedef shared.S LT\nconst LT DEF = {\"v\": 1}\n",
 		"r.thrift":    "include \"./shared.thrift\"\ntypedef shared.S RT\n",
 		"shared.thrift": "struct S { 1: optional i32 v }\n",
+	}})
+	// 6. one shared include whose package name collides with a standard import in
+	// one including module and not in another
+	ps = append(ps, program{Name: "shared-include-alias", Root: "root.thrift", Small: true, Files: map[string]string{
+		"root.thrift":   "include \"./a.thrift\"\ninclude \"./b.thrift\"\ninclude \"./c.thrift\"\nstruct R { 1: optional a.A x; 2: optional b.B y; 3: optional c.C z }\n",
+		"a.thrift":      "include \"./errors.thrift\"\ninclude \"./strings.thrift\"\nstruct A { 1: required errors.T t; 2: required string s; 3: optional strings.S q }\n",
+		"b.thrift":      "include \"./errors.thrift\"\ntypedef errors.T B\n",
+		"c.thrift":      "include \"./strings.thrift\"\ninclude \"./errors.thrift\"\nstruct C { 1: optional strings.S s; 2: optional errors.T t }\nconst errors.T CT = {\"m\": \"x\"}\n",
+		"errors.thrift": "struct T { 1: optional string m }\n",
+		"strings.thrift": "struct S { 1: optional string v }\nenum E { A }\n",
+	}})
+	// 7. inheritance chains whose upper links are only reachable through other files' includes
+	ps = append(ps, program{Name: "deep-inheritance", Root: "root.thrift", Small: true, Files: map[string]string{
+		"root.thrift": "include \"./x.thrift\"\ninclude \"./m.thrift\"\ninclude \"./y.thrift\"\nservice Root extends x.X { void r() }\n",
+		"x.thrift":    "include \"./m.thrift\"\nservice X extends m.M { void x() }\n",
+		"y.thrift":    "include \"./x.thrift\"\nservice Y extends x.X { void y() }\n",
+		"m.thrift":    "include \"./n.thrift\"\nservice M extends n.N { void m() }\n",
+		"n.thrift":    "include \"./o.thrift\"\nservice N extends o.O { void n() }\n",
+		"o.thrift":    "service O { void o() }\n",
+	}})
+	ps = append(ps, program{Name: "deep-inheritance-siblings", Root: "root.thrift", Small: true, Files: map[string]string{
+		"root.thrift": "include \"./x.thrift\"\ninclude \"./m.thrift\"\ninclude \"./z.thrift\"\nstruct Only { 1: optional i32 a }\n",
+		"x.thrift":    "include \"./m.thrift\"\nservice X extends m.M { void x() }\n",
+		"z.thrift":    "include \"./x.thrift\"\nservice Z extends x.X { void z() }\n",
+		"m.thrift":    "include \"./n.thrift\"\nservice M extends n.N { void m() }\n",
+		"n.thrift":    "service N { void n() }\n",
 	}})
 	return ps
 }
@@ -246,6 +309,25 @@ func run(w *ev.W) {
 	}
 	defer os.RemoveAll(out)
 	ps := programs()
+	// Each worker is a fresh process. Before anything else it computes the
+	// default-order output of every (program, options) pair, visiting the
+	// programs in an order rotated by its shard number, and records the hashes;
+	// the supervisor compares them across processes (state leaking between
+	// runs inside one process shows up as a difference between workers).
+	{
+		base := map[string]string{}
+		n := len(ps)
+		for i := 0; i < n; i++ {
+			p := ps[(i+w.Shard)%n]
+			for _, o := range optSets {
+				h := sha256.Sum256([]byte(execute(p, o, out, nil)))
+				base[p.Name+"/"+o.name] = hex.EncodeToString(h[:8])
+			}
+		}
+		b, _ := json.Marshal(base)
+		os.WriteFile(filepath.Join(w.WorkDir, fmt.Sprintf("baseline-%d.json", w.Shard)), b, 0o644)
+		w.Count("cross_process_baselines", int64(len(base)))
+	}
 	// one (program, options) pair per case; the exploration of one pair is
 	// additionally sharded over workers by level-1 subtree
 	for _, p := range ps {
